@@ -362,6 +362,17 @@ _AIGER_TOKEN_SPECS = [
     ("eof", "input", "", None), ("invalid_initialization", "input", "", None),
 ]
 
+# T3: ghost token queue between the real writers and the real parser control code
+_QUEUE = {
+    "overlay_extra": [("flussab/src/lib.rs", "q", "harness/flussab/verif_q.rs", "pub")],
+    "inject": [
+        ("flussab/src/write/text.rs", r"pub fn ascii_digits<I>\(writer: &mut DeferredWriter, value: I\)\nwhere\n\s*I: Integer,\n\{\n",
+         "    #[cfg(kani)]\n    if crate::verif_q::capturing() {\n        return crate::verif_q::push_num(value);\n    }\n"),
+        ("flussab/src/deferred_writer.rs", r"pub fn write_all_defer_err\(&mut self, buf: &\[u8\]\) \{\n",
+         "        #[cfg(kani)]\n        if crate::verif_q::capturing() {\n            return crate::verif_q::push_bytes(buf);\n        }\n"),
+    ],
+}
+
 def _aiger_t2(kind, make_parser):
     return dict(_MODEL, **{
         "name": "aiger_%s_t2" % kind,
@@ -369,6 +380,7 @@ def _aiger_t2(kind, make_parser):
         "prefix": "%s::verif_%s::" % (kind, kind),
         "overlay": [("flussab-aiger/src/token.rs", "stub", "harness/aiger/token_stub.rs"),
                     ("flussab-aiger/src/%s.rs" % kind, kind, "harness/aiger/parser_t2.rs")],
+        "overlay_extra": _QUEUE["overlay_extra"],
         "inject": _stub_injects("flussab-aiger/src/token.rs", _AIGER_TOKEN_SPECS),
         "append_text": _MODEL["append_text"] + [("flussab-aiger/src/%s.rs" % kind, make_parser)],
         "params": {"quick": {"N": 2}, "thorough": {"N": 2}},
@@ -407,6 +419,51 @@ _MAKE_BINARY = """#[cfg(kani)]
 fn verif_make_parser<L: Lit>(reader: LineReader<'static>, header: Header) -> Parser<'static, L> {
     Parser { reader, max_lit: header.max_var_index * 2 + 1, code: (header.input_count + 1).wrapping_mul(2), header, _lit_builder: std::marker::PhantomData }
 }"""
+
+def _aiger_t3(kind, make_parser, harnesses):
+    g = _aiger_t2(kind, make_parser)
+    g.update({
+        "name": "aiger_%s_t3" % kind,
+        "prefix": "%s::verif_%s3::" % (kind, kind[0]),
+        "overlay": [("flussab-aiger/src/token.rs", "stub", "harness/aiger/token_stub.rs"),
+                    ("flussab-aiger/src/%s.rs" % kind, "%s3" % kind[0], "harness/aiger/%s_t3.rs" % kind)],
+        "overlay_extra": _QUEUE["overlay_extra"],
+        "inject": g["inject"] + _QUEUE["inject"],
+        "append_text": g["append_text"] + [_SMALL_WRITER],
+        "flags": ["--default-unwind", "12"],
+        "harnesses": harnesses,
+    })
+    return g
+
+_SEC = {"props": ["C06", "C05", "C09", "C04", "C03"], "cost": 4}
+_RT = {"props": ["C03", "C05"], "cost": 5}
+GROUPS["aiger_ascii_t3"] = _aiger_t3("ascii", GROUPS["aiger_ascii_t2"]["append_text"][-1][1], [
+    ("sec_next_input", dict(_SEC, what="ascii next_input from any section state: None iff the declared count is used up (no input touched), else lit(max_lit, assigning) + newline, handed out right after the line")),
+    ("sec_next_output", dict(_SEC, what="ascii next_output")),
+    ("sec_next_bad", dict(_SEC, what="ascii next_bad_state_property")),
+    ("sec_next_constraint", dict(_SEC, what="ascii next_invariant_constraint")),
+    ("sec_next_local_fairness", dict(_SEC, what="ascii next_justice_property_local_fairness_constraint")),
+    ("sec_next_fairness", dict(_SEC, what="ascii next_fairness_constraint")),
+    ("sec_next_latch", dict(_SEC, what="ascii next_latch: state (assigning) / next / optional reset 0, 1 or own literal; anything else rejected")),
+    ("sec_next_and_gate", dict(_SEC, what="ascii next_and_gate: output (assigning), two inputs, field order")),
+    ("sec_next_justice_size", dict(_SEC, what="ascii next_justice_property_size: running total cannot wrap")),
+    ("tr_inputs_to_latches", dict(_SEC, what="section transition: remaining items skipped, next section expects the header's count")),
+    ("tr_latches_to_outputs", dict(_SEC, what="section transition latches -> outputs")),
+    ("tr_outputs_to_bad", dict(_SEC, what="section transition outputs -> bad")),
+    ("tr_bad_to_constraints", dict(_SEC, what="section transition bad -> constraints")),
+    ("tr_constraints_to_justice", dict(_SEC, what="section transition constraints -> justice sizes")),
+    ("tr_local_fairness_to_fairness", dict(_SEC, what="section transition local fairness -> fairness")),
+    ("tr_fairness_to_ands", dict(_SEC, what="section transition fairness -> and gates")),
+    ("tr_parser_to_inputs_and_justice_sizes", dict(_SEC, what="Parser::inputs and justice sizes -> local fairness constraints (sum of the sizes)")),
+    ("tr_ands_to_symbols", dict(_SEC, what="and gates -> symbols")),
+    ("rt_header", dict(_RT, what="ascii write_header -> Header::parse is the identity for every valid header (trailing zero fields dropped / 5..9 fields accepted)")),
+    ("rt_latch", dict(_RT, what="ascii write_latch -> next_latch identity: three reset forms")),
+    ("rt_and_gate", dict(_RT, what="ascii write_and_gate -> next_and_gate identity")),
+    ("rt_lit_lines_and_count", dict(_RT, what="ascii write_lit -> next_input / next_output, write_count -> next_justice_property_size")),
+    ("rt_symbol", dict(_RT, what="ascii write_symbol -> next_symbol identity for every section and index")),
+    ("rt_comment", dict(_RT, flags=["--default-unwind", "5"], what="ascii write_comment -> comment()")),
+    ("reach_ascii_t3", {"kind": "reach", "cost": 3, "what": "vacuity twin"}),
+])
 
 GROUPS["aiger_binary_rt"] = dict(dict(_MODEL, **_SPEC_INJECT), **{
     "name": "aiger_binary_rt",
